@@ -61,7 +61,7 @@ def normalise(events, frag_default=1344):
             yield {"ev": "WriteRet", "t": t, "t0": us(e["t0"]), "i": e["i"], "seq": e["seq"], "len": e["len"], "kind": e["kind"], "res": e["res"]}
         elif ev == "Send":
             subs = [sub_norm(s) for s in e["subs"] if s["k"] in SUB_KEEP]
-            yield {"ev": "Send", "t": t, "id": e["id"], "from": e["from"], "to": e["to"], "dup": 1 if "dupof" in e else 0,
+            yield {"ev": "Send", "t": t, "id": e["id"], "from": e["from"], "to": e["to"], "dup": 1 if ("dupof" in e or e.get("merged")) else 0,   # re-packaged by the network, not emitted by the endpoint
                    "meta": 1 if e.get("meta") else 0, "subs": subs}
         elif ev in ("Deliver", "Drop"):
             yield {"ev": ev, "t": t, "id": e["id"], "to": e["to"]}
